@@ -1071,10 +1071,27 @@ impl Property for C13 {
         let mut o = Outcome::ok();
         match case {
             C13Case::Run { prefix, cause } => {
+                // variants derived from the case (deterministic): slow writer; an inbound QoS 1
+                // PUBLISH already buffered when the cause occurs (both sources of the select
+                // loop ready in the same poll)
+                let h = case_hash(case);
+                let pressure = h % 3 == 0;
+                let racing = h % 5 == 1;
                 let mut scn = prefix.clone();
+                let mut cfg = SimCfg::default();
+                if pressure {
+                    cfg.write = WritePlan { per_call: 2, stall: Some(3) };
+                    o.class("write-back-pressure");
+                }
+                if racing {
+                    cfg.auto_settle = false;
+                    scn.events = scn.events.into_iter().flat_map(|e| [e, Ev::Settle]).collect();
+                    scn.events.push(Ev::In(Inbound::Publish { qos: 1, dup: false, retain: false, pid: 0, target: Target::Sub(0), payload_len: 1 }));
+                    o.class("inbound-packet-buffered-at-cause");
+                }
                 scn.events.push(Ev::Terminate(cause.clone()));
                 scn.events.push(Ev::Settle);
-                let out = run(&scn, &SimCfg::default());
+                let out = run(&scn, &cfg);
                 o.nontrivial = out.stats.cause_with_outstanding || out.stats.cause_with_stream || out.stats.oversized_disconnect;
                 if out.stats.oversized_disconnect {
                     o.class("user-disconnect-refused-as-oversized");
